@@ -80,8 +80,11 @@ class Report:
         known_keys = {k: txt for (p, k, txt) in known if p == self.pid}
         new = [v for v in viol if v[4] not in known_keys]
         kn = [v for v in viol if v[4] in known_keys]
+        printed = set()
         for v in kn:
-            print("KNOWN-FINDING: property=%s %s :: %s" % (self.pid, v[4], known_keys[v[4]]))
+            if v[4] not in printed:
+                printed.add(v[4])
+                print("KNOWN-FINDING: property=%s %s :: %s" % (self.pid, v[4], known_keys[v[4]]))
         ev_dir = os.environ.get("VERIF_EVIDENCE_DIR") or os.path.join(ROOT, "evidence")
         os.makedirs(ev_dir, exist_ok=True)
         replay = None
